@@ -152,6 +152,10 @@ class Con:
 
     def closed(self, delta=Fraction(0)):
         """closed version as (a', b') meaning a'.x <= b' ; delta>0 relaxes, delta<0 tightens (scaled by |a|_1)"""
+        if not any(self.a):
+            # zero row: no margin to speak of, keep its exact truth value (0 <= 0 or 0 <= -1)
+            holds = (0 > self.b) if self.strict else (0 <= self.b)
+            return (list(self.a), Fraction(0) if holds else Fraction(-1))
         m = delta * l1(self.a)
         if self.strict:
             return ([-v for v in self.a], -self.b + m)
@@ -288,6 +292,18 @@ class Tree:
         for p, label in path:
             conds += self.label_conds(self.nodes[p], label, conv)
         return conds, path
+
+    def dim_errors(self):
+        """terminals share one output dimension; decisions have the number of rows K allows"""
+        errs = []
+        outs = {len(self.nodes[i].M) for i in self.terminals()}
+        if len(outs) > 1:
+            errs.append("terminals with different output dimensions %s" % sorted(outs))
+        rows = {2: 1, 4: 2, 8: 3}.get(self.k)
+        for i in self.decisions():
+            if rows is not None and len(self.nodes[i].M) > rows:
+                errs.append("decision %d has %d rows (K=%d)" % (i, len(self.nodes[i].M), self.k))
+        return errs
 
     def structure_errors(self):
         """well-formedness of the exported arena (links mirror, leaf flags, reachability)"""
